@@ -2,6 +2,8 @@ import AlgoVerif.Proofs.C02Chain
 import AlgoVerif.Proofs.C02OA
 import AlgoVerif.Proofs.C02LinDel
 import AlgoVerif.Model.C02Hash
+import AlgoVerif.Proofs.C02Gen
+import AlgoVerif.Proofs.C02Pool
 /-!
 # C02 — the hash tables behave as a map for any hash function, options and history
 
@@ -22,7 +24,7 @@ reuse a hasher and, for scalars, a buffer) really compute these pure functions o
 what the correspondence component `hashfn` checks on every run.
 
 Helper lemmas: `Proofs/C02Lists`, `C02Num`, `C02Sim` (generic refinement), `C02Chain`, `C02OA`, `C02Lin`,
-`C02LinDel` (the cluster re-insertion loop of linear probing's `Delete`).
+`C02LinDel` (the cluster re-insertion loop of linear probing's `Delete`), `C02Pool` (tables used together).
 -/
 open AlgoVerif AlgoVerif.C02
 
@@ -65,6 +67,77 @@ theorem C02_double {K V σ : Type} [DecidableEq K] (hash : K → UInt64) (sh : S
   have hrel : Rel (OA.Inv hash) OA.Live t0 ([] : Spec.Map K V) :=
     ⟨hinv, Spec.nodupKeys_nil, fun k v => by simp [hempty k v]⟩
   exact ⟨t0, hnew, sim (OA.correct hsh hash eqVal) ops ⟨t0, t0, g⟩ ⟨[], []⟩ (Or.inl trivial) hrel hrel⟩
+
+/-! ## tables used together: different implementations, hash functions, options and value equalities; iterator values
+
+`Model/C02Pool.lean`: a history runs on a pool of tables, table `i` built by any of the four constructors (`c.ty`)
+with its own hash function, its own `eqVal` and its own valid options.  Besides the operations of the four theorems
+above: `equal i j` = `tables[i].Equal(tables[j])` for any `i`, `j` — the same table twice (`i = j`), tables that differ
+in hash function / options / `eqVal` (each is searched with its own hash function, values are compared with the
+receiver's `eqVal`), tables of different Go types (never equal: the type assertion) — and the iterator values a
+program can keep: `seq i` (`tables[i].All()`: the shuffle is drawn by this call), `pull s` (`iter.Pull2`), `next p`,
+`stop p`.  Nested `for range ht.All()` loops, two pulled iterators advanced alternately, a loop broken off half-way and
+a sequence run twice are histories over these four operations.  `Spec.Admits`: every operation returned `ok` the
+output of the Spec (finite maps, `Spec.pstep`) for *some* order of each listing that is a permutation of the map. -/
+
+theorem C02_pool {K V σ : Type} [DecidableEq K] (sh : Shuffle σ) (hsh : ShufflePerm sh) (cfgs : List (Cfg K V))
+    (hv : ∀ c ∈ cfgs, Tab.ValidOpts c.ty c.opts) (g : σ) (ops : List (POp K V)) :
+    ∃ objs : List (Obj K V), Pool.new cfgs = .ok objs ∧
+      Spec.Admits (specInit cfgs) ops (Pool.run sh ⟨objs, g, {}⟩ ops) := by
+  obtain ⟨objs, hnew, hrel⟩ := Pool.init_rel (σ := σ) cfgs hv
+  exact ⟨objs, hnew, pool_sim hsh ops _ _ (hrel g)⟩
+
+/-- what a sequence and a traversal are worth, in every state the Spec reaches (whatever the listings chosen, as long
+as each is a permutation of its map): a sequence that has not been ended by a change of its table lists exactly the
+pairs of its table (`SeqsOK`), and what a traversal has left is a suffix of its sequence's listing (`PullsOK`) — it
+starts with the whole listing (`Iters.pull`), `next` yields the head of what is left and nothing else, so a traversal
+run to the end yields every pair of the map exactly once, however many other traversals of the same table are in
+progress. -/
+theorem C02_pool_traversals {K V : Type} [DecidableEq K] (cfgs : List (Cfg K V))
+    (steps : List (POp K V × List (K × V))) (hc : Spec.ChoicesOK (specInit cfgs) steps) :
+    Spec.SeqsOK (Spec.prun (specInit cfgs) steps) ∧ Spec.PullsOK (Spec.prun (specInit cfgs) steps) :=
+  Spec.iters_ok steps _ hc (Spec.seqsOK_init cfgs) (Spec.pullsOK_init cfgs)
+
+section PoolNonVacuity
+
+/-- a separate-chaining table (identity hash, default options) and a quadratic-probing table (constant hash, capacity
+37, tighter bounds, values compared modulo 8): both option sets are valid -/
+def poolCfgs : List (Cfg Int Int) :=
+  [⟨.chain, fun k => UInt64.ofNat k.toNat, fun a b => a == b, {}⟩,
+   ⟨.quadratic, fun _ => 5, fun a b => a % 8 == b % 8, ⟨37, ⟨1, 4⟩, ⟨3, 8⟩⟩⟩,
+   ⟨.quadratic, fun k => UInt64.ofNat k.toNat, fun a b => a == b, {}⟩]
+
+example : ∀ c ∈ poolCfgs, Tab.ValidOpts c.ty c.opts := by
+  intro c hc
+  simp only [poolCfgs, List.mem_cons, List.not_mem_nil, or_false] at hc
+  rcases hc with rfl | rfl | rfl
+  · exact ⟨Or.inl rfl, by constructor <;> decide⟩
+  · exact ⟨Or.inr (by decide), by constructor <;> decide⟩
+  · exact ⟨Or.inl rfl, by constructor <;> decide⟩
+
+/-- the Model on that pool (identity shuffle): the two quadratic tables hold the same keys with values that differ by
+8 — equal for the receiver that compares modulo 8, different for the other one; a table equals itself; a chaining
+table never equals a quadratic one; two traversals of table 1 advanced alternately each yield both pairs; a change of
+table 1 ends them. -/
+example : (match (Pool.new poolCfgs : Outcome (List (Obj Int Int))) with
+    | .ok objs => Pool.run (fun g n => (List.range n, g)) ⟨objs, (), {}⟩
+        [.put 1 1 10, .put 1 2 20, .put 2 1 18, .put 2 2 28, .put 0 1 10, .put 0 2 20,
+         .equal 1 2, .equal 2 1, .equal 1 1, .equal 0 1, .equal 0 0,
+         .seq 1, .seq 1, .pull 0, .pull 1, .next 0, .next 1, .next 1, .next 0, .next 0, .next 1,
+         .pull 0, .put 1 3 30, .next 2, .pull 0, .size 1]
+    | _ => []) =
+    [.ok .unit, .ok .unit, .ok .unit, .ok .unit, .ok .unit, .ok .unit,
+     .ok (.bool true), .ok (.bool false), .ok (.bool true), .ok (.bool false), .ok (.bool true),
+     .ok (.id 0), .ok (.id 1), .ok (.id 0), .ok (.id 1), .ok (.pair (1, 10)), .ok (.pair (1, 10)), .ok (.pair (2, 20)),
+     .ok (.pair (2, 20)), .ok .done, .ok .done,
+     .ok (.id 2), .ok .unit, .ok .invalid, .ok .invalid, .ok (.int 3)] := by
+  decide
+
+/-- listings chosen for the Spec: `all` of an empty map and a sequence of a one-pair map -/
+example : Spec.ChoicesOK (specInit poolCfgs) [(.put 0 1 10, []), (.all 1, []), (.seq 0, [(1, 10)]), (.pull 0, []), (.next 0, [])] := by
+  simp [Spec.ChoicesOK, Spec.choiceOK, Spec.pstep, specInit, poolCfgs, Spec.Map.insert, Spec.Map.erase]
+
+end PoolNonVacuity
 
 /-! ## the library's default hash functions (`hash/hash.go`) -/
 
@@ -185,3 +258,58 @@ example : (match (OA.new .quad {} : Outcome (OATable Bytes Int)) with
   decide
 
 end NonVacuity
+
+/-! ## the arithmetic helpers of the hash tables, GENERATED from `symboltable/hash_table.go`
+
+`AlgoVerif.Generated.HashHelp.*` (file `Generated/C02Gen.lean`) is produced from `/repo/symboltable/hash_table.go` by
+the translator `/verif/extract/go2lean` on every run of this check (`bin/pre-C02`; scheme, subset and what is
+trusted: header of `extract/go2lean/main.go`): `gcd` over `UInt64`, the others over the unbounded `Int`, each loop with
+the caller's fuel.  The capacity checks (`isPowerOf2`, `isPrime`), the second hash of double hashing (`gcd`,
+`largestPrimeSmallerThan`) and the rehash sizes (`smallestPrimeLargerThan`) of the Model are these functions.  The
+statements: on the natural numbers, with at least the stated fuel, the generated definition returns the hand Model's
+value — and hence the mathematical one.  (The three open-addressing table files are outside the translator's subset:
+closures with mutable captured state, `float32`, `Put` ↔ `resize` mutual recursion, range-over-func iterators.) -/
+
+open AlgoVerif.Generated AlgoVerif.C02.Gen
+
+theorem C02_generated_gcd_refines (a b : UInt64) (fuel : Nat) (hf : min a.toNat b.toNat + 1 ≤ fuel) :
+    (HashHelp.gcd fuel a b).map UInt64.toNat = .ok (gcdGo a.toNat b.toNat) := gcd_eq a b fuel hf
+
+/-- the generated `gcd` computes the greatest common divisor -/
+theorem C02_generated_gcd (a b : UInt64) (fuel : Nat) (hf : min a.toNat b.toNat + 1 ≤ fuel) :
+    (HashHelp.gcd fuel a b).map UInt64.toNat = .ok (Nat.gcd a.toNat b.toNat) := by
+  rw [C02_generated_gcd_refines a b fuel hf, gcdGo_eq]
+
+example : (HashHelp.gcd 13 12 18).map UInt64.toNat = .ok 6 := by decide
+
+theorem C02_generated_isPowerOf2_refines (n : Nat) (hn : n < 2 ^ 63) :
+    HashHelp.isPowerOf2 (n : Int) = C02.isPowerOf2 n := isPowerOf2_eq n hn
+
+example : HashHelp.isPowerOf2 32 = true ∧ HashHelp.isPowerOf2 48 = false := by decide
+
+theorem C02_generated_isPrime_refines (n fuel : Nat) (hf : n + 1 ≤ fuel) :
+    HashHelp.isPrime fuel (n : Int) = .ok (C02.isPrime n) := isPrime_eq n fuel hf
+
+/-- the generated `isPrime` decides primality -/
+theorem C02_generated_isPrime (n fuel : Nat) (hf : n + 1 ≤ fuel) :
+    ∃ b, HashHelp.isPrime fuel (n : Int) = .ok b ∧ (b = true ↔ Nat.Prime n) :=
+  ⟨_, C02_generated_isPrime_refines n fuel hf, isPrime_correct n⟩
+
+example : HashHelp.isPrime 132 131 = .ok true ∧ HashHelp.isPrime 134 133 = .ok false := by decide
+
+theorem C02_generated_largestPrimeSmallerThan_refines (n fuel : Nat) (hf : n + 1 ≤ fuel) :
+    HashHelp.largestPrimeSmallerThan fuel (n : Int) = .ok (C02.largestPrimeSmallerThan n) := largestPrime_eq n fuel hf
+
+theorem C02_generated_smallestPrimeLargerThan_refines (n fuel : Nat) (hf : 2 * n + 3 ≤ fuel) :
+    (C02.smallestPrimeLargerThan n).map (fun q => ((q : Nat) : Int)) = .diverge ∨
+      (C02.smallestPrimeLargerThan n).map (fun q => ((q : Nat) : Int)) = HashHelp.smallestPrimeLargerThan fuel (n : Int) :=
+  smallestPrime_le n fuel hf
+
+/-- the generated `smallestPrimeLargerThan` terminates with a prime in `[n, 2n]` (Bertrand's postulate) -/
+theorem C02_generated_smallestPrimeLargerThan (n fuel : Nat) (hn : 1 ≤ n) (hf : 2 * n + 3 ≤ fuel) :
+    ∃ r : Nat, HashHelp.smallestPrimeLargerThan fuel (n : Int) = .ok (r : Int) ∧ Nat.Prime r ∧ n ≤ r ∧ r ≤ 2 * n := by
+  obtain ⟨r, h, hp, h1, h2⟩ := smallestPrimeLargerThan_terminates n hn
+  refine ⟨r, ?_, hp, h1, h2⟩
+  exact Outcome.le.ok (C02_generated_smallestPrimeLargerThan_refines n fuel hf) (by simp [h])
+
+example : HashHelp.smallestPrimeLargerThan 67 32 = .ok 37 := by decide
